@@ -3310,6 +3310,9 @@ func (p *Parser) parseIdentityColumn() *ast.IdentityColumn {
 	if p.Token.Kind == "(" {
 		p.nextToken()
 		params = p.parseSequenceParams()
+		if len(params) == 0 {
+			p.panicfAtToken(&p.Token, "expected token: BIT_REVERSED_POSITIVE, SKIP, START, but: %s", p.Token.Kind)
+		}
 		rparen = p.expect(")").Pos
 	}
 
